@@ -3,6 +3,7 @@ package main
 import (
 	"bytes"
 	"fmt"
+	"io"
 	"net"
 	"net/http"
 	"net/http/httptest"
@@ -61,8 +62,12 @@ type c17Req struct {
 	method string // "" = POST
 }
 
+// undeclared: the body is sent without a declared length (chunked): size_limit cannot refuse
+// it up front, it has to cut it off where the limit is reached
+func (rq c17Req) undeclared() bool { return strings.Contains(rq.name, "undeclared-length") }
+
 // requests on both sides of each rejecting plugin's decision, including near misses
-var c17Reqs = []c17Req{{"accepted", true, 4, "", "", ""}, {"no-api-key", false, 4, "custom-auth", "", ""}, {"oversized-body", true, 64, "size_limit", "", ""},
+var c17Reqs = []c17Req{{"oversized-body-undeclared-length", true, 64, "", "", ""}, {"body-at-limit-undeclared-length", true, 8, "", "", ""}, {"accepted", true, 4, "", "", ""}, {"no-api-key", false, 4, "custom-auth", "", ""}, {"oversized-body", true, 64, "size_limit", "", ""},
 	{"body-at-limit", true, 8, "", "", ""}, {"body-one-over-limit", true, 9, "size_limit", "", ""},
 	{"key-other-case", true, 4, "custom-auth", "SESAME", ""}, {"key-capitalised", true, 4, "custom-auth", "Sesame", ""},
 	{"key-prefix", true, 4, "custom-auth", "sesam", ""}, {"key-extended", true, 4, "custom-auth", "sesame1", ""},
@@ -93,9 +98,10 @@ func c17Order(r *vres.Report, maxLen int) {
 			for i, s := range seq {
 				chain = append(chain, c17Valid[c17Names[s]], probe(i+1))
 			}
-			baseHits := 0
+			baseHits, baseRead := 0, int64(0)
 			h, err := plugins.BuildChain(config.PluginsConfig{Enabled: true, Chain: chain}, http.HandlerFunc(func(w http.ResponseWriter, r *http.Request) {
 				baseHits++
+				baseRead, _ = io.Copy(io.Discard, r.Body)
 				c17Trace = append(c17Trace, "base")
 				w.Header().Set("Content-Type", "text/plain")
 				w.Write([]byte("ok"))
@@ -110,7 +116,7 @@ func c17Order(r *vres.Report, maxLen int) {
 			}
 			for _, rq := range c17Reqs {
 				c17Trace = nil
-				baseHits = 0
+				baseHits, baseRead = 0, 0
 				method := rq.method
 				if method == "" {
 					method = "POST"
@@ -122,6 +128,10 @@ func c17Order(r *vres.Report, maxLen int) {
 						kv = "sesame"
 					}
 					req.Header.Set("X-API-Key", kv)
+				}
+				if rq.undeclared() {
+					req.ContentLength = -1
+					req.TransferEncoding = []string{"chunked"}
 				}
 				rec := httptest.NewRecorder()
 				h.ServeHTTP(rec, req)
@@ -156,6 +166,15 @@ func c17Order(r *vres.Report, maxLen int) {
 				}
 				if rejected && baseHits != 0 {
 					r.Violate("C17/gating/backend-reached-after-rejection", desc+": the base handler ran although "+rq.reject+" rejects the request", len(seq)*10, map[string]interface{}{"chain": names, "request": rq.name})
+				}
+				if rq.undeclared() {
+					// what is over the upload limit never gets past size_limit, declared or not
+					for _, n := range names {
+						if n == "size_limit" && baseRead > 8 {
+							r.Violate("C17/gating/oversized-upload-passed-size-limit", fmt.Sprintf("%s: the handler behind size_limit (max_request_body 8) read %d bytes of a %d-byte upload sent without a declared length", desc, baseRead, rq.body), len(seq)*10, map[string]interface{}{"chain": names, "request": rq.name})
+							break
+						}
+					}
 				}
 				if rejected && (rec.Code < 400) {
 					r.Violate("C17/gating/rejection-not-an-error-status", fmt.Sprintf("%s: status %d", desc, rec.Code), len(seq)*10, nil)
@@ -216,6 +235,19 @@ func c17Invalid() []c17Bad {
 		{"headers:set-scalar", config.PluginConfig{Name: "headers", Config: m("set", "X-App: Helios")}},
 		{"headers:set-number-value", config.PluginConfig{Name: "headers", Config: m("set", map[string]interface{}{"X-N": 5})}},
 		{"headers:request_set-list", config.PluginConfig{Name: "headers", Config: m("request_set", []interface{}{"a"})}},
+		// a header name that is not a token, a value that would end the header line: net/http
+		// drops such a response header silently and refuses to send such a request header
+		{"headers:set-name-with-spaces", config.PluginConfig{Name: "headers", Config: m("set", map[string]interface{}{"X Frame Options": "DENY"})}},
+		{"headers:set-empty-name", config.PluginConfig{Name: "headers", Config: m("set", map[string]interface{}{"": "v"})}},
+		{"headers:set-value-with-line-break", config.PluginConfig{Name: "headers", Config: m("set", map[string]interface{}{"X-App": "a\r\nX-Injected: 1"})}},
+		{"headers:request_set-name-with-colon", config.PluginConfig{Name: "headers", Config: m("request_set", map[string]interface{}{"X-From:": "LB"})}},
+		// an option the plugin does not know (a misspelt one: the limit / the key the operator
+		// meant is then not in force)
+		{"size_limit:misspelt-option", config.PluginConfig{Name: "size_limit", Config: m("max_request_size", 8)}},
+		{"size_limit:extra-option", config.PluginConfig{Name: "size_limit", Config: m("max_request_body", 8, "max_reponse_body", 8)}},
+		{"custom-auth:misspelt-option", config.PluginConfig{Name: "custom-auth", Config: m("apiKey", "sesame", "api_key", "other")}},
+		{"gzip:extra-option", config.PluginConfig{Name: "gzip", Config: m("level", 5.0, "min_size", 64.0, "content_types", list, "min-size", 1.0)}},
+		{"logging:unknown-option", config.PluginConfig{Name: "logging", Config: m("level", "debug")}},
 		{"custom-auth:no-key", config.PluginConfig{Name: "custom-auth"}},
 		{"custom-auth:empty-key", config.PluginConfig{Name: "custom-auth", Config: m("apiKey", "")}},
 		{"custom-auth:number-key", config.PluginConfig{Name: "custom-auth", Config: m("apiKey", 12345)}},
